@@ -20,6 +20,7 @@ RULE = ('random function bodies (ordinary, you and defeat flavours; empty and in
         'program is run on inputs 0..5 at word sizes 2 and 3, checked and unchecked, followed in memory by a function that prints <NEXT>; '
         'non-trivial = the body nests >= 2 exit constructs; distinct by hash of (source, input)')
 ASSUMPTIONS = common.ISA_ASSUMPTIONS + ['accept/reject is compared one-directionally: rejecting a function that cannot complete is conservative, not a violation']
+REQUIRED_HIDC_FUNCTIONS = ['ast/blocks:CodeBlock.evaluate', 'ast/blocks:LoopBlock.exit_modes', 'ast/blocks:TryBlock.exit_modes']     # M-COV: deciding code never entered => inconclusive
 MIN_NONTRIVIAL = {'quick': 800, 'thorough': 8000}
 MAX_STEPS = 200_000
 INPUTS = ['0', '1', '2', '3', '4', '5']
